@@ -124,7 +124,7 @@ def encodings(c):
 def run_encodings(ctx, P):
     _, _, Candle, CandleManager, Hexital = lib()
     n = P["n"]
-    cs = mk_candles(ctx, n)
+    cs = mk_candles(ctx, n, zero_ok=True)     # an open of exactly 0 must not turn a list-form candle into 'no input'
     host = P["host"]
 
     def make():
